@@ -389,6 +389,7 @@ def campaign(ctx, props):
     camp.sentinel()
     rng = ctx.rng
     targeted(ctx, camp)
+    failing_sibling_stress(ctx, camp)
     systematic(ctx, camp)
     ngraphs = ctx.n(36, 400)
     nsched = ctx.n(5, 12)
@@ -479,10 +480,13 @@ def targeted(ctx, camp):
         for si in range(ctx.n(60, 400)):
             chooser = detsched.random_chooser(rng, rng.choice([0.3, 0.5, 0.7])) if si % 3 else \
                 detsched.pct_chooser(rng, depth=rng.choice([2, 4, 6]), horizon=rng.choice([200, 500]))
-            run, outcome = camp.one(nodes, edges, rng.choice([3, 4, 5]), 0, rng.choice(["cheap", "random", "default"]),
-                                    [], "Exception", chooser, "join-stress:" + name)
-            ctx.case(("join-stress", name, tuple(run.sched.decisions[:300])))
-            ctx.count("targeted_shape", name + "/stress")
+            # every third schedule: the independent predecessor of the second join fails and errors are tolerated - a join that is
+            # released twice would start the node below it although one of its dependencies failed
+            failing_, me_ = ([2], None) if (name == "double-join" and si % 3 == 1) else ([], 0)
+            run, outcome = camp.one(nodes, edges, rng.choice([3, 4, 5]), me_, rng.choice(["cheap", "random", "default"]),
+                                    failing_, "Exception", chooser, "join-stress:" + name)
+            ctx.case(("join-stress", name, tuple(failing_), tuple(run.sched.decisions[:300])))
+            ctx.count("targeted_shape", name + "/stress" + ("/failing-sibling" if failing_ else ""))
 
 
 def systematic(ctx, camp, shapes=None, budget=None):
@@ -528,6 +532,19 @@ def systematic(ctx, camp, shapes=None, budget=None):
                                         "systematic:%s:dev@%d->%d,%d->%d" % (name, a[0], a[1], b[0], b[1]), opcodes=opcodes, dedupe=seen)
                 ctx.case(("systematic2", name, workers, a, b), nontrivial=True)
             ctx.count("systematic_distinct_traces", "%s/w%d: %d" % (name, workers, len(seen)))
+
+
+def failing_sibling_stress(ctx, camp):
+    """double-join with a failing independent predecessor of the second join, errors tolerated, many aggressive schedules"""
+    rng = ctx.rng
+    nodes, edges = [0, 1, 2, 3, 4], [(0, 3, "pos"), (1, 3, "pos"), (3, 4, "pos"), (2, 4, "pos")]
+    for si in range(ctx.n(120, 800)):
+        chooser = detsched.random_chooser(rng, rng.choice([0.4, 0.6, 0.8])) if si % 3 else \
+            detsched.pct_chooser(rng, depth=rng.choice([3, 5, 8]), horizon=rng.choice([150, 300]))
+        run, outcome = camp.one(nodes, edges, rng.choice([3, 4]), None, rng.choice(["cheap", "random", "default"]),
+                                [2], "Exception", chooser, "join-stress:double-join/failing-sibling", pause=(si % 2 == 0))
+        ctx.case(("join-stress-failing", tuple(run.sched.decisions[:300])))
+        ctx.count("targeted_shape", "double-join/stress/failing-sibling")
 
 
 def file_findings(ctx, camp, props):
